@@ -11,7 +11,6 @@ DOT = ord('.')
 
 
 class RewriteHooks(QHooks):
-    precise = frozenset(['L:i'])
     tracked = frozenset(['G:rwline'])
 
     def __init__(self, geometry):
@@ -30,11 +29,16 @@ class RewriteHooks(QHooks):
             E.kill()
 
     def precise_arith(self, path):
-        return bool(self.geo) and path.split('::')[-1].split('#')[0] == 'L:i'
+        return bool(self.geo)      # fixed geometry: every counter is exact
+
+    def materialize_split(self, E, path):
+        if self.geo and path.startswith(self._addr + '.s['):
+            return [fs(DOT), fs(ord('x'))]
+        return None
 
     def materialize(self, E, path):
-        if self.geo and path.startswith(self._addr + '.s['):
-            return fs(DOT, ord('x'))
+        if self.geo and path == self._addr + '.s':
+            return fs(('&', self._addr + '.s[0]'))     # so that a helper handed addr.s indexes the same bytes
         return TOP
 
     def _sa(self, E, x, i=0):
@@ -125,12 +129,22 @@ class RewriteHooks(QHooks):
         self.site('rewrite:empty-tag-entry-ends-the-search', x, g1(E, '$emptyhit', 0) == 0,
                   'a virtualdomains entry with an empty tag (an exception) was found and the search goes on to a less specific entry', E)
         if self.geo:
-            iv = None
-            for p, v in E.store.items():
-                if p.endswith('::L:i#0') or '::L:i#' in p:
-                    iv = next(iter(v)) if v is not TOP and len(v) == 1 else None
             lv = args[2]
-            self.site('rewrite:virtualdomains-lookup-is-the-suffix-from-i', x, iv is not None and lv == fs(LEN - iv), 'lookup length %s at i=%s' % (sorted(lv) if lv is not TOP else '?', iv), E)
+            ln = next(iter(lv)) if lv is not TOP and len(lv) == 1 and isinstance(next(iter(lv)), int) else None
+            iv = LEN - ln if ln is not None else None
+            # the key pointer must be addr.s + i for the same i
+            pv = args[1]
+            pk = None
+            if pv is not TOP and len(pv) == 1:
+                (a,) = pv
+                if isinstance(a, tuple) and a[0] == '&':
+                    pk = a[1]
+            okp = True
+            kx = x.args[1].strip()
+            if kx.k == 'bin' and kx.op == '+':
+                off = E.val(kx.args[1])
+                okp = off is not TOP and off == fs(iv)
+            self.site('rewrite:virtualdomains-lookup-is-the-suffix-from-i', x, iv is not None and 0 <= iv <= LEN and okp, 'lookup of %s bytes starting at offset %s (len %d)' % (ln, sorted(E.val(kx.args[1])) if kx.k == 'bin' and E.val(kx.args[1]) is not TOP else '?', LEN), E)
             dot = E.get('%s.s[%d]' % (self._addr, iv)) if iv is not None and iv < LEN else None
             self.cands.add((iv, None if dot is None or dot is TOP or len(dot) != 1 else next(iter(dot)) == DOT))
             prev = g1(E, '$lasti', -1)
